@@ -51,12 +51,16 @@ def run(ctx):
     cases = [(d, t, "regression") for d, t in pfam.regression_cases("C08")] + [(d, t, "corpus") for d, t in pfam.corpus_statements()]
     cases += pfam.scripts(r, n, wild=0.0, single=True)
     cases += [(d, t, "tree-first") for d, t in pfam.tree_texts(ctx.rng.fork("trees"), 100 if ctx.quick else 2500)]
+    # every ACCEPTED token sequence up to a length over the small alphabets (tools/harness/smallscope.py), element-level ones wrapped into statements: accounted
+    # like any other text — an option the parser reads in a second position and then overwrites, a repeated clause, a word taken for something else
+    import smallscope
+    cases += smallscope.accepted_statements(ctx, ["calls-case", "special-calls", "ddl-column", "ddl-column-2", "ddl-index", "ddl-fk", "select-clauses", "joins", "dml", "update-delete"])
     # the same statements with comments written between their tokens (two or three per text, of every shape incl. star runs before the closing slash, empty
     # comments, comment openers inside comments): nothing but the comments may disappear — judged against the reference tokenizer's reading of the text
     import lexstreams
     closed = [c for c in lexstreams.COMMENTS if c.endswith(("*/", "\n"))]
     rc = ctx.rng.fork("commented")
-    base = [c for c in cases if c[2] not in ("regression", "corpus") and len(c[1]) < 600 and not any(k in c[1] for k in ("/*", "--", "#"))]
+    base = [c for c in cases if c[2] not in ("regression", "corpus") and not c[2].startswith("small-scope") and len(c[1]) < 600 and not any(k in c[1] for k in ("/*", "--", "#"))]
     for d, t, _ in rc.shuffle(base)[: 500 if ctx.quick else 12000]:
         bs = boundaries(t)
         if len(bs) < 2:
@@ -66,6 +70,9 @@ def run(ctx):
         cases.append((d, t, "commented"))
     res, _ = ctx.corr([pfam.req_parse(d, t) for d, t, _ in cases], stream="parse")
     acc = E.run_impl(["ACC %s %s" % (d, E.enhex(t)) for d, t, _ in cases])
+    # the printed text of the small-scope statements whose accounting differs, in ONE batch (a process per case costs ~0.3 s)
+    ss_diff = [(d, t) for (d, t, kind), a in zip(cases, acc) if kind.startswith("small-scope:") and a.startswith("OK differs")]
+    printed_ss = dict(zip(ss_diff, E.run_impl([pfam.req_print(d, d, t) for d, t in ss_diff])))
     for (d, t, kind), a in zip(cases, acc):
         k = a.split(" ")[1] if a.startswith("OK ") else a.split(" ")[0]
         ctx.count("accounting:" + k.split(":")[0])
@@ -75,6 +82,23 @@ def run(ctx):
             import reflex
             if c05.hash_in_word(reflex.normalise(t)):
                 ctx.count("accounting:lexers-differ:hash-in-word(F-C05-1)"); continue
+        if kind.startswith("small-scope:") and a.startswith("OK differs"):
+            # enumerated sequences put words where nobody writes them; two readings are not losses and are counted apart: a punctuation / operator token taken as a
+            # column name (`SELECT , FROM t` gives the column `,`: the element rule accepts any token — nothing written is lost, a name is GAINED), and a literal word
+            # (NULL / TRUE / FALSE) in a name position (`CREATE TABLE t (NULL c)`: stored and printed as the name `NULL` — the literal is "lost", the name is there)
+            import re as _re
+            mm = _re.search(r"lost=\[([^\]]*)\] gained=\[([^\]]*)\]", a)
+            lost_ = [w for w in (mm.group(1).split(",") if mm else []) if w]
+            if not lost_:
+                ctx.count("accounting:small-scope:gained-only(any-token-as-name)"); continue
+            if all(w.upper() in ("NULL", "TRUE", "FALSE") for w in lost_):
+                ctx.count("accounting:small-scope:literal-word-as-name"); continue
+            # a token where a bracket group is expected is consumed as an EMPTY group (F-C08-6): the printed statement shows a `()` the input does not have
+            pr_ = printed_ss.get((d, t), "")
+            if "()" not in t and "%28;%29;" in pr_:
+                pfam.report(ctx, "word-before-bracket-group", {"kind": "input", "entry": "parse_statements + source", "dialect": d, "input": t, "observed": a[:400],
+                                                               "oracle": "c08: every identifier and literal of the input appears the same number of times in the printed statement", "how_found": "stream " + kind})
+                continue
         if a.startswith("OK differs") or a.startswith("OK printed-text-does-not-lex"):
             what = "lost" if "lost=[]" not in a else "gained"
             cls = classify(d, t, a)
@@ -84,7 +108,7 @@ def run(ctx):
     # stray token
     stray = []
     for (d, t, kind), (_, a, _) in zip(cases, res):
-        if not a.startswith("OK") or len(t) > 1500 or any(k in t for k in ("/*", "--", "#")):
+        if not a.startswith("OK") or len(t) > 1500 or any(k in t for k in ("/*", "--", "#")) or kind.startswith("small-scope"):
             continue        # a token inserted inside a comment is rightly invisible
         bs = boundaries(t)
         if not bs:
